@@ -1,0 +1,13 @@
+//go:build !verif
+// +build !verif
+
+package verifhook
+
+// Point is a no-op unless built with the verif tag.
+func Point(name string) {}
+
+// PointArg is a no-op unless built with the verif tag.
+func PointArg(name string, arg interface{}) {}
+
+// Flag is constant false unless built with the verif tag.
+func Flag(name string) bool { return false }
